@@ -74,6 +74,7 @@ class C17(Prop):
                           policies=["natural@dup", "1@dup"]),
                     Layer("stack chains (<=5 push/pop steps, optional extra consumption rule)", e(GI.stack_chain_cases),
                           policies=["natural@dup", "1@dup"]),
+                    Layer("marked pairs with unbalanced consumption rules", e(GI.marked_pair_cases), policies=["natural@dup", "1@dup"]),
                     Layer("IG(<=2 rules) x regular (every 2nd grammar)",
                           i(lambda: (c for k, c in enumerate(c2 for c2 in GI.ig_cases(1, 2) if GI.is_rep(c2)) if k % 2 == 0)),
                           policies=["natural@few"])]
@@ -84,6 +85,7 @@ class C17(Prop):
                       policies=["natural@full", "1@full", "2@full", "3@full"]),
                 Layer("stack chains (<=6 push/pop steps, optional extra consumption rule)",
                       e(lambda: GI.stack_chain_cases(6, 4)), policies=["natural@full", "1@full"]),
+                Layer("marked pairs with unbalanced consumption rules", e(GI.marked_pair_cases), policies=["natural@full", "1@full"]),
                 Layer("IG(3 rules)/4 x regular", i(lambda: (c for k, c in enumerate(GI.ig_cases(3, 3)) if k % 4 == 0)),
                       rep=rep, policies=["natural"]),
                 Layer("IG(<=2 rules) x regular", i(lambda: GI.ig_cases(1, 2)), rep=None, policies=three)]
